@@ -31,6 +31,8 @@ type c13Case struct {
 	Store   string     `json:"store"`
 	Value   string     `json:"value,omitempty"` // setvalue: description of the Go value
 	Leaf    string     `json:"leaf,omitempty"`
+	// Via (documents): query parameters the target selection was narrowed with before the edit is made through it
+	Via string `json:"via,omitempty"`
 }
 
 func c13GoValue(desc string) interface{} {
@@ -126,6 +128,9 @@ func c13Run(c c13Case, o *hx.Obs) {
 	if c.Mutation != "" {
 		o.Class("mutation=%s", c.Mutation)
 	}
+	if c.Via != "" {
+		o.Class("edit through a selection narrowed by %s", strings.SplitN(c.Via, "=", 2)[0])
+	}
 	o.NonTrivial()
 	b := node.NewBrowser(mm, store.Node())
 	var rerr error
@@ -154,6 +159,11 @@ func c13Run(c c13Case, o *hx.Obs) {
 			}
 			if rerr != nil || src == nil {
 				return
+			}
+			if c.Via != "" {
+				if sel, rerr = sel.Constrain(c.Via); rerr != nil || sel == nil {
+					return
+				}
 			}
 			switch c.Op {
 			case "insert":
@@ -326,7 +336,7 @@ func treeToGeneric(mod *dm.Module, n *dm.Node, t dm.Tree) map[string]interface{}
 	return v
 }
 
-func c13GenDoc(t *rapid.T) c13Case {
+func c13GenDoc0(t *rapid.T) c13Case {
 	o := dm.DefaultGen()
 	o.Types = []string{"int8", "int32", "uint64", "decimal64", "string", "boolean", "enumeration", "bits", "identityref", "empty"}
 	o.KeyTypes = []string{"string", "int32"}
@@ -505,6 +515,20 @@ func c13GenDoc(t *rapid.T) c13Case {
 		i := rapid.IntRange(0, len(c.Text)).Draw(t, "at")
 		c.Text = c.Text[:i] + rapid.SampledFrom([]string{"{", "}", "[", "]", ",", ":", "\"", "null", "\\", "\x00"}).Draw(t, "ins") + c.Text[i:]
 		c.Mutation, c.Expect = "json-token-insert", ""
+	}
+	return c
+}
+
+func c13GenDoc(t *rapid.T) c13Case {
+	c := c13GenDoc0(t)
+	if rapid.IntRange(0, 4).Draw(t, "via-constrained") == 0 {
+		// the selection the edit goes through was taken for a read with parameters: whatever they let through, the edit
+		// ends in a result or an error
+		c.Via = rapid.SampledFrom([]string{"depth=1", "depth=2", "fields=nothere", "fc.xfields=nothere", "content=config", "content=nonconfig", "with-defaults=trim", "fc.max-node-count=1", "fc.range=l1!0-1"}).Draw(t, "via")
+		if en, _, ok := dm.Resolve(c.Module.Root(), c.Data, c.Entry); ok && en != nil && len(en.DataChildren()) > 0 && rapid.Bool().Draw(t, "via-a-child") {
+			c.Via = rapid.SampledFrom([]string{"fields=", "fc.xfields="}).Draw(t, "via-kind") + en.DataChildren()[rapid.IntRange(0, len(en.DataChildren())-1).Draw(t, "via-child")].Name
+		}
+		c.Expect = "" // what the parameters keep the edit from reaching is not looked at: only totality is asserted
 	}
 	return c
 }
